@@ -222,7 +222,7 @@ def replay(pyhf, backend, precision, chunk, seed, fit_every=0, sink=None):
     return out
 
 
-def to_trace(tid, init_cur, init_n, records):
+def to_trace(tid, init_cur, init_n, records, init_opt="scipy"):
     """Renumber Python ids (first-seen order) and keep only the fields the trace specification reads."""
     ids = {}
 
@@ -233,7 +233,7 @@ def to_trace(tid, init_cur, init_n, records):
             ids[x] = len(ids) + 1
         return ids[x]
     evs = []
-    known = {"events.subscribe", "set_backend.swap", "events.trigger", "events.call", "events.flush", "set_backend.fired", "set_backend.done"}
+    known = {"events.subscribe", "set_backend.swap", "events.trigger", "events.call", "events.flush", "set_backend.fired", "set_backend.done", "fit.shim"}
     for r in records:
         if r["ev"] not in known:       # records of other hooks (fit.*, ...) belong to other trace specifications
             continue
@@ -249,5 +249,7 @@ def to_trace(tid, init_cur, init_n, records):
             e.update(callbacks=[[str(c[0]), rid(c[1]) if c[2] else 0, bool(c[2])] for c in r["callbacks"]])
         elif r["ev"] == "events.flush":
             e.update(removed=r["removed"], kept=r["kept"])
+        elif r["ev"] == "fit.shim":
+            e.update(backend=r["backend"], optimizer=r["optimizer"])
         evs.append(e)
-    return {"id": tid, "init": {"cur": list(init_cur), "n": init_n}, "events": evs}
+    return {"id": tid, "init": {"cur": list(init_cur), "n": init_n, "opt": init_opt}, "events": evs}
